@@ -53,8 +53,9 @@ fn faults() -> Vec<Fault> {
         f("illegal-addressing-mode", "lda ($10)", true),
         f("illegal-addressing-mode-2", "stx $10,x", true),
         f("immediate-out-of-range", "lda #256", true),
-        g("branch-out-of-range", "{\nbne far_q\n.loop 130 { nop }\nfar_q:\n}", (1, 1)),
-        g("branch-out-of-range-backward", "{\nbck_q:\n.loop 130 { nop }\nbeq bck_q\n}", (3, 3)),
+        // (boundary values: the smallest distances that are out of range, +128 and -129)
+        g("branch-out-of-range", "{\nbne far_q\n.loop 128 { nop }\nfar_q:\n}", (1, 1)),
+        g("branch-out-of-range-backward", "{\nbck_q:\n.loop 127 { nop }\nbeq bck_q\n}", (3, 3)),
         g("macro-arity", ".macro arq_q(p) { nop }\nnop\narq_q()", (2, 2)),
         g("macro-arity-too-many", ".macro arr_q() { nop }\nnop\narr_q(1, 2)", (2, 2)),
         f("malformed-immediate", "lda #", false),
